@@ -3,4 +3,9 @@ HARNESSES = [
     COMMON["dec12"]("partial12", ["C18"], COMMON["dec12_cases"](64, None) + COMMON["dec12_cases"](96, None, tier="thorough")),
     COMMON["dec13"]("partial13", ["C18"], ns=((48, "quick"), (96, "thorough"))),
 ]
-PROPERTY = dict(level="model_checking", explanation="", bounds="", outside="", assumptions=[])
+PROPERTY = dict(level='model_checking',
+    claim='SSL_PARTIAL is pure: the buffer, the bytes and the session state are unchanged and requiredLen exceeds what is buffered.',
+    bounds='as C01',
+    outside='matrixSslReceivedData buffer management and suffix independence are not yet encoded',
+    explanation='SSL_PARTIAL is pure: the buffer, the bytes and the session state are unchanged and requiredLen exceeds what is buffered.',
+    assumptions=[])
